@@ -1,6 +1,7 @@
 package checks
 
 import (
+	"sync/atomic"
 	"bytes"
 	"encoding/binary"
 	"encoding/json"
@@ -208,12 +209,30 @@ func catchPanic(f func()) (panicked bool) {
 	return
 }
 
+// libHang records the first library call of a sequential replay that did not return (a deadlock inside the code under
+// test); the check reports it and stops instead of hanging itself.
+var libHang atomic.Value
+
+// catchPanicW is catchPanic with a watchdog, for sequential replays: a call that has not returned after 20 s is
+// abandoned (its goroutine leaks), recorded in libHang and reported to the caller as "panicked".
+func catchPanicW(what string, f func()) (panicked bool) {
+	done := make(chan bool, 1)
+	go func() { done <- catchPanic(f) }()
+	select {
+	case p := <-done:
+		return p
+	case <-time.After(20 * time.Second):
+		libHang.CompareAndSwap(nil, what)
+		return true
+	}
+}
+
 // do performs op and returns the observed reply in the encoding of DiskSem.
 func (c *diskClient) do(op string, a, i, v int, ln string) int {
 	switch op {
 	case "read":
 		var out []byte
-		if catchPanic(func() { out = c.t.read(realAddr(a, c.r)) }) {
+		if catchPanicW("Read", func() { out = c.t.read(realAddr(a, c.r)) }) {
 			return rPANIC
 		}
 		c.bufs[i], c.lens[i] = out, "ok"
@@ -221,7 +240,7 @@ func (c *diskClient) do(op string, a, i, v int, ln string) int {
 	case "readto":
 		// dirty the buffer first so that a read that transfers nothing is visible
 		before := append([]byte(nil), c.bufs[i]...)
-		if catchPanic(func() { c.t.readTo(realAddr(a, c.r), c.bufs[i]) }) {
+		if catchPanicW("ReadTo", func() { c.t.readTo(realAddr(a, c.r), c.bufs[i]) }) {
 			if !bytes.Equal(before, c.bufs[i]) {
 				return rTORN
 			}
@@ -229,7 +248,7 @@ func (c *diskClient) do(op string, a, i, v int, ln string) int {
 		}
 		return classify(c.bufs[i], c.maxV)
 	case "write":
-		if catchPanic(func() { c.t.write(realAddr(a, c.r), c.bufs[i]) }) {
+		if catchPanicW("Write", func() { c.t.write(realAddr(a, c.r), c.bufs[i]) }) {
 			return rPANIC
 		}
 		return rOK
@@ -248,12 +267,12 @@ func (c *diskClient) do(op string, a, i, v int, ln string) int {
 		return rOK
 	case "size":
 		var s uint64
-		if catchPanic(func() { s = c.t.size() }) {
+		if catchPanicW("Size", func() { s = c.t.size() }) {
 			return rPANIC
 		}
 		return logAddr(s)
 	case "barrier":
-		if catchPanic(func() { c.t.barrier() }) {
+		if catchPanicW("Barrier", func() { c.t.barrier() }) {
 			return rPANIC
 		}
 		return rOK
@@ -351,6 +370,11 @@ func C09(c *ev.Ctx) {
 			cl := newDiskClient(t, 3, 3, rr)
 			for si, e := range h {
 				got := cl.do(e.Op, e.A, e.I, e.V, e.Len)
+				if hw := libHang.Load(); hw != nil {
+					hb, _ := json.MarshalIndent(h[:si+1], "", " ")
+					c.Violation("disk.hang."+tn, fmt.Sprintf("target %s: %v (step %d of the behaviour) did not return within 20 s: an earlier operation of this sequence left the disk unusable (deadlock)", tn, hw, si+1), map[string]string{"history.json": string(hb)})
+					return
+				}
 				if got != e.R {
 					hb, _ := json.MarshalIndent(h[:si+1], "", " ")
 					c.Violation("replay-"+tn, fmt.Sprintf("target %s step %d %+v: specification reply %d, implementation reply %d (-1 panic, -2 ok, -9 torn/other)", tn, si+1, e, e.R, got),
@@ -419,6 +443,10 @@ func C09(c *ev.Ctx) {
 				e = map[string]any{"ev": "size", "r": cl.do("size", 0, 0, 0, "")}
 			default:
 				e = map[string]any{"ev": "barrier", "r": cl.do("barrier", 0, 0, 0, "")}
+			}
+			if hw := libHang.Load(); hw != nil {
+				c.Violation("disk.hang."+tn, fmt.Sprintf("target %s: %v did not return within 20 s after the operations\n%s", tn, hw, window(evs, len(evs)-1, 10, 0)), nil)
+				return
 			}
 			evs = append(evs, e)
 			r, _ := e["r"].(int)
